@@ -32,6 +32,17 @@ func (t Tuple) FriendlyName() string {
 	return "tuple"
 }
 
+func (t Tuple) Validate() error {
+	for i, elem := range t.Elems {
+		if c, ok := elem.(Validatable); ok {
+			if err := c.Validate(); err != nil {
+				return fmt.Errorf("Elems[%d]: %T: %w", i, elem, err)
+			}
+		}
+	}
+	return nil
+}
+
 func (t Tuple) Copy() Constraint {
 	newTuple := Tuple{
 		Description: t.Description,
